@@ -12,7 +12,7 @@ from core import q
 warnings.simplefilter('ignore')
 
 REQUIRED = ['writeLoop_replays', 'write_replays', 'first_point_closed', 'write_digits', 'write_error', 'printed_value_error',
-            'printed_full', 'formatArgs_full']
+            'printed_full', 'formatArgs_full', 'write_final_state', 'writeLoop_final_shutter', 'write_final_shutter']
 RULE = ('stream write: (configuration, point matrix) -> real PGMCompiler.write on a fresh compiler -> bytes of the closed file '
         '-> Lean: parse, interpret on the reference controller, decide the predicate of theorem write_replays (moves == expectedFrom '
         'of the printed points, digits) and compare with the model\'s own output.  Matrices: generated well-formed ones (toggles on '
